@@ -96,6 +96,7 @@ def attemptsOk (limit : Nat) (reset : Option Int) (tr : List Item) : Bool := acc
 
 structure RsSt where
   expect : Option Int := none     -- the next request must be an OffsetRequest for this time
+  fetchAt : Option Int := none    -- the offset an OffsetRequest resolved to: the next fetch must ask for exactly it
   fatal : Option Nat := none      -- the event being handled is out-of-range (tag) and no policy is set
   reported : Bool := false
   fired : Bool := false           -- the start() Deferred of this run has fired already
@@ -111,7 +112,9 @@ def rsStep (reset : Option Int) (m : RsSt) : Item → RsSt
     | none => { m with fatal := some t, reported := m.fired }
     | some r => { m with expect := some r, fatal := none }
   -- a restart overwrites the fetch position, so it cancels the expectation
-  | .ev (.start _) => { m with fatal := none, fired := false, savedFired := m.fired, expect := none }
+  | .ev (.start _) => { m with fatal := none, fired := false, savedFired := m.fired, expect := none, fetchAt := none }
+  -- the policy (and a start from earliest/latest) is carried out: fetching goes on exactly where the broker said
+  | .ev (.offsetOk _ off) => { m with fatal := none, fetchAt := some off }
   | .ob .raisedRestart => { m with fired := m.savedFired }
   | .ev _ => { m with fatal := none }
   | .ob (.startFired r) =>
@@ -119,7 +122,11 @@ def rsStep (reset : Option Int) (m : RsSt) : Item → RsSt
     else { m with fired := true }
   | .ob (.crash _) => { m with reported := true }
   | .ob (.setTimer .retry _) => if m.fatal.isSome then { m with bad := true } else m
-  | .ob (.fetch _ _ _) => if m.expect.isSome then { m with bad := true } else m
+  | .ob (.fetch _ off _) =>
+    if m.expect.isSome then { m with bad := true }
+    else match m.fetchAt with
+      | some e => if off == e then { m with fetchAt := none } else { m with bad := true }
+      | none => m
   | .ob (.offsetFetch _) => if m.expect.isSome then { m with bad := true } else m
   | .ob (.offsets _ t) =>
     match m.expect with
